@@ -273,10 +273,10 @@ theorem runnerPoll_inv {r : Runner} (hr : RunnerInv r) (head : Nat) (pending : O
         refine ⟨this.1, ?_, ?_⟩
         · have h2 := this.2.1
           simp only [List.pairwise_cons] at h2 ⊢
-          simpa using h2
+          simp
         · intro a ha b hb
           have := this.2.2 a ha
-          simp only [List.mem_cons, List.mem_singleton, List.not_mem_nil, or_false] at hb
+          simp only [List.mem_cons, List.not_mem_nil, or_false] at hb
           rcases hb with hb | hb
           · subst hb; simpa using this (r.cur, { l with exp := some (pact - 1) }) (by simp)
           · subst hb; simpa using this (r.cur + 1, { act := pact, exp := none, com := pcom }) (by simp)
